@@ -10,8 +10,8 @@
                  Angle, S_Distance; every other type (H_Diff, Z_Angle, X, Y, Z, Xdiff, Ydiff, Zdiff,
                  Azimuth, and everything in a Coordinates cluster) gives 0;
   * `testLin`  : TestLinearization — `max |pol| >= 0.0005`;
-  * `rhs*`     : the absolute terms of local_linearization.cpp needed by the fixed-point theorem
-                 (written here by hand: Gama/Gen/Linearization.lean of C05 did not exist when this was built).
+  The absolute terms (rhs) are NOT modelled here: the fixed-point theorems use C05's generated
+  Gama/Gen/Linearization.lean (see Gama/Lemmas/C06Fix.lean).
 -/
 import Gama.Model.Median
 namespace Gama.GN
@@ -96,30 +96,5 @@ def polOther : K := 0
 def testLin (pols : List K) : Bool :=
   let m := pols.foldl (fun acc p => if acc < abs p then abs p else acc) (0 : K)
   decide (ofSci 5 true 4 ≤ m)
-
-/-! ### absolute terms (local_linearization.cpp) -/
-
-def r2cc (a : K) : K := a * (ofSci 200 false 4 / pi)      -- a*R2CC as `(...)*R2CC`, R2CC = 200.0E4/M_PI
-
-/-- `while (a > 200e4) a -= 400e4; while (a < -200e4) a += 400e4;` -/
-def wrapCcDown : Nat → K → K
-  | 0, a => a
-  | n + 1, a => if ofSci 200 false 4 < a then wrapCcDown n (a - ofSci 400 false 4) else a
-def wrapCcUp : Nat → K → K
-  | 0, a => a
-  | n + 1, a => if a < -(ofSci 200 false 4 : K) then wrapCcUp n (a + ofSci 400 false 4) else a
-
-def rhsDistance (val sx sy cx cy : K) : K :=
-  (val - (bearingDistance sy sx cy cx).2) * thousand
-def rhsDirection (fuel : Nat) (val orient sx sy cx cy : K) : K :=
-  wrapCcUp fuel (wrapCcDown fuel ((val + orient - (bearingDistance sy sx cy cx).1) * ofSci 200 false 4 / pi))
-def rhsAngle (fuel : Nat) (val sx sy c1x c1y c2x c2y : K) : K :=
-  let ds := (bearingDistance sy sx c2y c2x).1 - (bearingDistance sy sx c1y c1x).1
-  let ds := if ds < 0 then ds + twoPi else ds
-  wrapCcUp fuel (wrapCcDown fuel ((val - ds) * ofSci 200 false 4 / pi))
-def rhsHDiff (val zs zc : K) : K := (val - (zc - zs)) * thousand
-def rhsSDistance (val dx dy dz : K) : K := (val - sqrt (dx * dx + dy * dy + dz * dz)) * thousand
-def rhsDiff (val a b : K) : K := (val - (b - a)) * thousand     -- xdiff / ydiff / zdiff
-def rhsCoord (val c : K) : K := (val - c) * thousand            -- x / y / z
 
 end Gama.GN
